@@ -867,6 +867,40 @@ func (env *Env) evalCall(e *ast.CallExpr) Val {
 			body := And(Eq(Select(Select(fc.H(env.st, d), obj), bv), Select(Select(fc.H(env.old, d), obj), bv)),
 				Eq(Select(Select(fc.H(env.st, v), obj), bv), Select(Select(fc.H(env.old, v), obj), bv)))
 			return boolVal(fmt.Sprintf("(forall ((%s Iface)) (! %s :pattern ((select (select %s %s) %s))))", bv, Imp(Not(Eq(bv, k)), body), fc.H(env.st, d), obj, bv))
+		case "unchanged":
+			// unchanged(A!T | H!S!f | C!T ...): every location of that heap that existed at function entry has its entry value
+			lit, ok := e.Args[0].(*ast.BasicLit)
+			if !ok {
+				bail("unchanged: expects a string literal naming a heap")
+			}
+			name, _ := strconv.Unquote(lit.Value)
+			var cs []string
+			for _, h := range env.readHeaps(name) {
+				bv := Sym(strings.ReplaceAll(strings.Trim(fc.sc.Fresh("q.loc"), "|"), "~", "_"))
+				now, then := fc.H(env.st, h), fc.H(fc.entry, h)
+				if now == then {
+					continue
+				}
+				cs = append(cs, fmt.Sprintf("(forall ((%s Ref)) (! (=> (< (ageR %s) %s) (= (select %s %s) (select %s %s))) :pattern ((select %s %s))))", bv, bv, fc.entry.alloc, now, bv, then, bv, now, bv))
+			}
+			return boolVal(And(cs...))
+		case "sforall":
+			// sforall(k, body): quantification over string-valued keys
+			name := e.Args[0].(*ast.Ident).Name
+			bv := Sym(strings.ReplaceAll(strings.Trim(fc.sc.Fresh("q."+name), "|"), "~", "_"))
+			sub := *env
+			sub.vars = map[string]Val{}
+			for kk, vv := range env.vars {
+				sub.vars[kk] = vv
+			}
+			sub.vars[name] = Val{T: bv, Sort: "String", Typ: types.Typ[types.String]}
+			fc.inQuant++
+			body := sub.evalBool(e.Args[1])
+			fc.inQuant--
+			if pats := selectPatterns(body, bv); len(pats) > 0 {
+				return boolVal(fmt.Sprintf("(forall ((%s String)) (! %s :pattern (%s)))", bv, body, pats[0]))
+			}
+			return boolVal(fmt.Sprintf("(forall ((%s String)) %s)", bv, body))
 		case "mforall":
 			// mforall(k, m, body): body holds for every key k of map m
 			name := e.Args[0].(*ast.Ident).Name
